@@ -55,6 +55,10 @@ def gen_cases(tier, seed):
         for kind in ("ode", "statio2", "nonstatio1", "nonstatio2", "obs", "param"):
             cases.append(dict(kind=kind, n=n, b=b, n2=n2, b2=b2, n3=n3, b3=b3, keys=keys,
                               eager=eager, cost=cost * (2 if "non" in kind else 1), x64=True))
+            if i % 4 == 2:
+                # JAX's default 32-bit mode (what users run): int32 cursors, float32 points
+                cases.append(dict(kind=kind, n=n, b=b, n2=n2, b2=b2, n3=n3, b3=b3, keys=keys[:1],
+                                  eager=False, cost=cost * (2 if "non" in kind else 1), x64=False))
     return cases
 
 
@@ -124,6 +128,9 @@ def run_case(case, rec):
                 return
             step = (lambda gg: gg.get_batch()) if case["eager"] else jax.jit(lambda gg: gg.get_batch())
             streams = {}
+            if not case.get("x64", True):
+                mode = mode + "-x32"
+                rec.count("streams_in_32bit_mode")
             tag = lambda s, nn, bb_: (kind, s, nn, bb_, key, mode)
             if kind == "ode":
                 streams["times"] = Stream(rec, "times", g.times, b, tag("times", n, b))
@@ -176,7 +183,10 @@ def run_case(case, rec):
                 rec.unsupp("obs: %s" % u.reason)
                 return
             step = (lambda gg: gg.get_batch()) if case["eager"] else jax.jit(lambda gg: gg.get_batch())
-            s = Stream(rec, "observation rows", pin, b, (kind, "rows", n, b, key, mode))
+            if not case.get("x64", True):
+                mode = mode + "-x32"
+                rec.count("streams_in_32bit_mode")
+            s = Stream(rec, "observation rows", g.observed_pinn_in, b, (kind, "rows", n, b, key, mode))
             for k in range(4 * s.chk.g + 1):
                 g, ob = guard.call(step, g)
                 rec.count("get_batch_calls_%s" % mode)
